@@ -47,3 +47,61 @@ UNITS.append(glue('mod', 'r', '  /* mpz_mod: result in [0,|d|): add |d| when the
                   '  __CPROVER_assert (V_val (r) == tr + (tr < 0 ? (vd < 0 ? -vd : vd) : 0), "[C02] mod: non-negative remainder, sign of the divisor ignored");\n'
                   '  __CPROVER_assert (V_val (r) >= 0 && V_val (r) < (vd < 0 ? -vd : vd), "[C02] mod: result in [0,|d|)");\n',
                   [(r'if \(divisor->_mp_size < 0\)', 'if (divisor->_mp_size > 0)')]))
+
+# ------------------------------------------------------------------ mpz_tdiv_qr: limb-level glue over the ASSUMED shape contract of mpn_tdiv_qr
+from c04_alloc import mpz_obj
+from c03_mpn import copy_loop
+from c03_mpz import norm_loop, split_alias
+TQ_CONTRACT = '''_Bool g_div0_expected;
+void __gmp_divide_by_zero (void) { __CPROVER_assert (g_div0_expected, "[C02] DIVIDE_BY_ZERO is raised only when the divisor is zero"); __CPROVER_assume (0); }
+void __gmpz_tdiv_qr (mpz_ptr quot, mpz_ptr rem, mpz_srcptr num, mpz_srcptr den)
+__CPROVER_requires (V_WF (quot) && V_WF (rem) && V_WF (num) && V_WF (den) && quot != rem && V_GHOSTS_OK)
+__CPROVER_assigns (*quot, *rem, __CPROVER_object_whole (V_PTR (quot)), __CPROVER_object_whole (V_PTR (rem)), g_div_calls, g_dnum, g_dden, g_dnn, g_ddn, __CPROVER_alloca_object)
+__CPROVER_frees (V_PTR (quot), V_PTR (rem))
+__CPROVER_ensures (V_WF_AT (quot, gk) && V_WF_AT (rem, gk));
+'''
+TQ_H = '''void *__gmp_tmp_reentrant_alloc (struct tmp_reentrant_t **m, size_t n) { void *q = malloc (n); __CPROVER_assume (q != (void *) 0); return q; }
+void __gmp_tmp_reentrant_free (struct tmp_reentrant_t *m) { }
+void h_mpz_tdiv_qr (void) {
+%(Q)s%(R)s%(N)s%(D)s  mpz_ptr q = &Q, r = &R; mpz_srcptr n = &N, d = &D;
+ALIASBLOCK
+  gk = nondet_long (); gj = nondet_long (); gh = nondet_long ();
+  __CPROVER_assume (V_GHOSTS_OK && V_WF (q) && V_WF (r) && V_WF (n) && V_WF (d));
+  long ns = V_SIZ (n), ds = V_SIZ (d), nl = V_ABS (ns), dl = V_ABS (ds);
+  mp_limb_t Nk = gk < nl ? V_PTR (n)[gk] : 0, Dj = gj < dl ? V_PTR (d)[gj] : 0, Dk = gk < dl ? V_PTR (d)[gk] : 0;
+  g_div0_expected = (dl == 0); g_div_calls = 0;
+  __gmpz_tdiv_qr (q, r, n, d);
+  __CPROVER_assert (dl != 0, "[C02] returned normally, so the divisor was not zero");
+  long qs = V_SIZ (q), rs = V_SIZ (r);
+  if (nl < dl)
+    { /* |n| < |d|: quotient 0, remainder n */
+      __CPROVER_assert (qs == 0 && g_div_calls == 0, "[C02] |n| < |d| by size: quotient 0 without dividing");
+      __CPROVER_assert (rs == ns && (gk < nl ==> V_PTR (r)[gk] == Nk), "[C02][C05] |n| < |d| by size: remainder is n, limb for limb");
+    }
+  else
+    {
+      __CPROVER_assert (g_div_calls == 1 && g_dnn == nl && g_ddn == dl, "[C02] one multi-limb division of {n,nl} by {d,dl}");
+      __CPROVER_assert (g_dnum == Nk && g_dden == Dj, "[C02][C05] the divider saw the original limbs of n and d (faithful temporary copies when an output aliases an input)");
+      __CPROVER_assert (V_ABS (qs) == nl - dl + 1 || V_ABS (qs) == nl - dl, "[C02] quotient has nl-dl+1 or nl-dl limbs");
+      __CPROVER_assert (qs == 0 || (qs < 0) == ((ns < 0) != (ds < 0)), "[C02] quotient sign = xor of the operand signs (truncation toward zero)");
+      __CPROVER_assert (V_ABS (rs) <= dl && (rs == 0 || (rs < 0) == (ns < 0)), "[C02] remainder: at most dl limbs, sign of the dividend");
+    }
+  if (n != q && n != r) __CPROVER_assert ((long) V_SIZ (n) == ns && (gk < nl ==> V_PTR (n)[gk] == Nk), "[C05] dividend (not an output) unchanged");
+  if (d != q && d != r) __CPROVER_assert ((long) V_SIZ (d) == ds && (gk < dl ==> V_PTR (d)[gk] == Dk), "[C05] divisor (not an output) unchanged");
+}'''
+_tq = dict(name='mpz_tdiv_qr', props=['C02', 'C04', 'C05', 'C15'], source='mpz/tdiv_qr.c', contracts=['mpn.h', 'mpz.h', 'div_assumed.h'], contract_text=TQ_CONTRACT,
+           enforce=['__gmpz_tdiv_qr'], replace=['__gmpz_realloc', '__gmpn_tdiv_qr'],
+           functions={'__gmpz_tdiv_qr': dict(loops={0: copy_loop(['gk', 'gj']), 1: copy_loop(['gk', 'gj']), 2: copy_loop(['gk', 'gj']), 3: norm_loop('rp', 'dl', 'gk')})},
+           assumptions=['mpn_tdiv_qr: ASSUMED shape contract (contracts/div_assumed.h): preconditions nn >= dn >= 1, normal divisor top limb, non-overlap; quotient/remainder areas written; the QUOTIENT VALUE is not specified'],
+           harness=TQ_H % dict(Q=mpz_obj('Q'), R=mpz_obj('R'), N=mpz_obj('N'), D=mpz_obj('D')), timeout=1500, tier='thorough',
+           selftest=[])
+_TQ_OPTS = [('nq', '  n = q;'), ('nr', '  n = r;'), ('dq', '  d = q;'), ('dr', '  d = r;'), ('nqdr', '  n = q; d = r;'), ('nd', '  d = n;')]
+for _t, _c in _TQ_OPTS:
+    _v = dict(_tq); _v['name'] = 'mpz_tdiv_qr_' + _t
+    _v['harness'] = _tq['harness'].replace('ALIASBLOCK', _c).replace('h_mpz_tdiv_qr (void)', 'h_mpz_tdiv_qr_%s (void)' % _t)
+    UNITS.append(_v)
+for _u in UNITS:
+    if _u['name'] == 'mpz_tdiv_qr_dr':
+        _u['selftest'] = [('__gmpz_tdiv_qr', r'if \(dp == rp \|\| dp == qp\)', 'if (dp == qp)'), ('__gmpz_tdiv_qr', r'ql -=  qp\[ql - 1\] == 0;', ';')]
+    if _u['name'] == 'mpz_tdiv_qr_nq':
+        _u['selftest'] = [('__gmpz_tdiv_qr', r'if \(np == rp \|\| np == qp\)', 'if (np == rp)')]
